@@ -158,6 +158,18 @@ pub fn dequeue(a: &Args) {
             dq::Rec::spawn_linked(None, dq::Rec { yields }, log.clone(), sup.get_cell()).await.unwrap()
         }
     });
+    // optionally a child whose supervision events race with the messages (a second OS thread delivers them one at a time)
+    let supevts = a.opt_u128("supevts").unwrap_or(0) as usize;
+    let ev_thread = if supevts > 0 {
+        let child = rt.block_on(async { dq::Sup::spawn_linked(None, dq::Sup, Default::default(), actor.get_cell()).await.unwrap().0 });
+        Some(std::thread::spawn(move || {
+            for _ in 0..supevts {
+                child.get_cell().notify_supervisor(ractor::SupervisionEvent::ActorStarted(child.get_cell()));
+            }
+        }))
+    } else {
+        None
+    };
     let mut joins = Vec::new();
     for t in 0..threads {
         let r = actor.clone();
@@ -185,6 +197,9 @@ pub fn dequeue(a: &Args) {
     let mut sent: Vec<(u64, bool)> = Vec::new();
     for j in joins {
         sent.extend(j.join().unwrap());
+    }
+    if let Some(t) = ev_thread {
+        t.join().unwrap();
     }
     if end == "drain" {
         let _ = actor.drain();
